@@ -607,3 +607,83 @@ Inductive tsim : ty -> ty -> Prop :=
    binding for that pointer. *)
 Definition write := (nat * utdef)%type.
 Definition apply_writes (ws : list write) (H : env) : env := fold_left (fun h w => w :: h) ws H.
+
+(* ---- Go slices: ValidationExpr.Required under AddRequired / RemoveRequired / Dup ----
+   These mutators write the backing array in place (RemoveRequired always, AddRequired
+   when there is spare capacity), so whether a copy is independent depends on whether it
+   owns its array. A slice is (array, len, cap); an array is a list of cells whose length
+   is its capacity; arrays live in a store with a bump allocator. *)
+Record gslice := GS { g_arr : nat; g_len : nat; g_cap : nat }.
+Definition arrays := list (nat * list bytes).
+Record sstate := SS { ss_arrays : arrays; ss_next : nat }.
+
+Fixpoint alookup (id : nat) (A : arrays) : list bytes :=
+  match A with
+  | [] => []
+  | (i, c) :: r => if Nat.eqb id i then c else alookup id r
+  end.
+
+(* what a slice reads: the first len cells of its array *)
+Definition sread (A : arrays) (s : gslice) : list bytes := firstn (g_len s) (alookup (g_arr s) A).
+
+Fixpoint set_nth {X} (i : nat) (x : X) (l : list X) : list X :=
+  match l, i with
+  | [], _ => []
+  | _ :: r, O => x :: r
+  | y :: r, S j => y :: set_nth j x r
+  end.
+
+(* append(s, x): in place when len < cap, otherwise a new array (its capacity is the
+   runtime's choice and cannot be read through either slice; any value >= len+1 will do) *)
+Definition sappend (st : sstate) (s : gslice) (x : bytes) : sstate * gslice :=
+  let A := ss_arrays st in
+  if Nat.ltb (g_len s) (g_cap s) then
+    (SS ((g_arr s, set_nth (g_len s) x (alookup (g_arr s) A)) :: A) (ss_next st),
+     GS (g_arr s) (S (g_len s)) (g_cap s))
+  else
+    let newcap := S (2 * g_cap s) in
+    (SS ((ss_next st, sread A s ++ x :: repeat [] (newcap - S (g_len s))) :: A) (S (ss_next st)),
+     GS (ss_next st) (S (g_len s)) newcap).
+
+Fixpoint index_of (x : bytes) (l : list bytes) : option nat :=
+  match l with
+  | [] => None
+  | y :: r => if beq x y then Some 0 else match index_of x r with Some i => Some (S i) | None => None end
+  end.
+
+(* ValidationExpr.AddRequired, one name *)
+Definition add_required (st : sstate) (s : gslice) (x : bytes) : sstate * gslice :=
+  match index_of x (sread (ss_arrays st) s) with
+  | Some _ => (st, s)
+  | None => sappend st s x
+  end.
+
+(* ValidationExpr.RemoveRequired: v.Required = append(v.Required[:i], v.Required[i+1:]...)
+   moves the cells i+1 .. len-1 one position down in the same array; cell len-1 keeps its
+   old content *)
+Definition remove_required (st : sstate) (s : gslice) (x : bytes) : sstate * gslice :=
+  let A := ss_arrays st in
+  match index_of x (sread A s) with
+  | None => (st, s)
+  | Some i =>
+    let cells := alookup (g_arr s) A in
+    let cells' := firstn i cells ++ firstn (g_len s - S i) (skipn (S i) cells) ++ skipn (g_len s - 1) cells in
+    (SS ((g_arr s, cells') :: A) (ss_next st), GS (g_arr s) (g_len s - 1) (g_cap s))
+  end.
+
+(* ValidationExpr.Dup on the Required slice: nil when empty, else make + copy *)
+Definition required_dup (st : sstate) (s : gslice) : sstate * gslice :=
+  match g_len s with
+  | O => (st, GS 0 0 0)
+  | _ => (SS ((ss_next st, sread (ss_arrays st) s) :: ss_arrays st) (S (ss_next st)),
+          GS (ss_next st) (g_len s) (g_len s))
+  end.
+
+Inductive rop := RAdd (x : bytes) | RRemove (x : bytes).
+
+Fixpoint run_rops (ops : list rop) (st : sstate) (s : gslice) : sstate * gslice :=
+  match ops with
+  | [] => (st, s)
+  | RAdd x :: r => let (st', s') := add_required st s x in run_rops r st' s'
+  | RRemove x :: r => let (st', s') := remove_required st s x in run_rops r st' s'
+  end.
